@@ -69,7 +69,9 @@ def run(tier, seed, work, replay):
                 if x.get("op") == "wait":
                     st.append(SW)
             swept.append({"kind": "otp", "origin": c["origin"] + "+sweeps", "steps": st})
-    systematic = systematic + swept
+    # and once more while the primary store is down and profiles are served from the replica
+    offline = [dict(c, origin=c["origin"] + "+store-outage", store="outage") for c in systematic if c["kind"] == "otp"]
+    systematic = systematic + swept + offline
     n, depth = (25, 30) if tier == "quick" else (300, 45)
     cases = [{"kind": "bucket", "burst": 12, "rate": 2, "sequential": 36 if tier == "quick" else 120, "pauseEvery": 12, "pauseMs": 1500,
               "concurrentEach": 25 if tier == "quick" else 120}] + systematic + simulate(work, n, depth, seed)
